@@ -1,13 +1,21 @@
 use crate::Args;
 use crate::report::Report;
 
+pub mod c01;
+mod c01_env;
+mod c01_proto;
+mod c01_tcp;
+mod c01_udp;
 pub mod c14;
 pub mod c17;
+pub mod c19;
 
 pub fn dispatch(args: &Args) -> Report {
     match args.id.as_str() {
+        "C01" => c01::run(args),
         "C14" => c14::run(args),
         "C17" => c17::run(args),
+        "C19" => c19::run(args),
         other => panic!("no driver for {other}"),
     }
 }
